@@ -667,7 +667,9 @@ func (v *Verifier) havocBySummary(s *State, fn *ssa.Function, prefix string, wit
 	sum := v.summaryOf(fn)
 	vis := sum.visible(withFree)
 	for _, g := range sortedKeys(s.ghost) {
-		if strings.HasPrefix(g, "$") {
+		if strings.HasPrefix(g, "$") || v.noInterference > 0 {
+			// (interference from other goroutines does not touch ghost state: ghost counters are this goroutine's own
+			// accounting, shared ghost views are protected by monitors and re-read at Lock)
 			continue
 		}
 		// ghost globals are package-scoped: a call whose target is unknown can change those of the callee's own
